@@ -20,8 +20,21 @@ def const_matrix(m: ArrV):
     return M
 
 
+_EIGH = {}
+
+
 def eigh(ev, a, k):
     M = const_matrix(a[0])
+    key = tuple(M)
+    if key in _EIGH:
+        w0, V0 = _EIGH[key]
+        return Tup([ArrV(0, w0.shape, cells=w0.cells), ArrV(0, V0.shape, cells=V0.cells)])
+    r = _eigh(M)
+    _EIGH[key] = tuple(r.items)
+    return r
+
+
+def _eigh(M):
     if M != M.T:
         raise AnalysisError("eigh of a matrix that is not symmetric")
     vecs = []
